@@ -53,8 +53,14 @@ func resetCalls() {
 	}
 }
 
+// tableSetup, when set, prepares the symbol table before the names are disabled (family "predeclared").
+var tableSetup func(st *ugo.SymbolTable)
+
 func symtab(disabled []string) *ugo.SymbolTable {
 	st := ugo.NewSymbolTable()
+	if tableSetup != nil {
+		tableSetup(st)
+	}
 	st.DisableBuiltin(disabled...)
 	return st
 }
@@ -242,6 +248,49 @@ func run13(c *fw.Ctx) {
 		}
 	}
 	// modules
+	// the embedder's table is not empty when the names are disabled: one of them is already declared in it (a global
+	// the host defines, a variable left by an earlier script, the builtin itself cached by an earlier use); the OTHER
+	// names of the same DisableBuiltin call must be disabled all the same, wherever the declared one stands in the list
+	c.Family("predeclared", "symbol table in which one disabled name P is already a global / a local / a used builtin x DisableBuiltin(P, N) and (N, P) and (X, P, N) x N referenced at every site")
+	setups := []struct {
+		name string
+		f    func(st *ugo.SymbolTable, p string)
+	}{
+		{"global", func(st *ugo.SymbolTable, p string) { st.DefineGlobal(p) }},
+		{"local", func(st *ugo.SymbolTable, p string) { st.DefineLocal(p) }},
+		{"used-builtin", func(st *ugo.SymbolTable, p string) { st.Resolve(p) }},
+	}
+	for _, su := range setups {
+		for _, pn := range names {
+			for _, n := range names {
+				if n == pn {
+					continue
+				}
+				var third string
+				for _, x := range names {
+					if x != n && x != pn {
+						third = x
+						break
+					}
+				}
+				for oi, order := range [][]string{{pn, n}, {n, pn}, {third, pn, n}} {
+					for _, s := range sites {
+						for _, u := range uses(n, false)[:2] {
+							if !c.Next() {
+								continue
+							}
+							c.Nontrivial()
+							src := "global (L); var r; U := func(...a) { return 99 }; id := func(a) { return a }; " + s.Make(u) + "; return r"
+							su, pn := su, pn
+							tableSetup = func(st *ugo.SymbolTable) { su.f(st, pn) }
+							oneScript(c, fmt.Sprintf("predeclared|%s=%s|order%d%v|%s", su.name, pn, oi, order, src), src, order, true, nil, nil, nil)
+							tableSetup = nil
+						}
+					}
+				}
+			}
+		}
+	}
 	c.Family("modules", "a source module references N; imported from 6 kinds of site; module declares N itself or not")
 	impSites := []string{
 		`m := import("mod"); return m`,
